@@ -163,3 +163,23 @@ def ast_flags(unit, repo=None, srcdir=None):
         units = source_override(units, srcdir)
     src, flags, cwd = units[unit]
     return src, flags + ["-w"], cwd
+
+
+def facts_for_snippet(name, code, mode="leaves", repo=None, srcdir=None, unit="queue", public_only=False):
+    """compile a generated translation unit (client-side view of the public headers, or a probe of internal
+    inline functions) with the flags of `unit` and return the path of its facts"""
+    ensure_tool()
+    units = compdb(repo)
+    if srcdir:
+        units = source_override(units, srcdir)
+    src, flags, cwd = units[unit]
+    sd = scratch()
+    cfile = os.path.join(sd, "snippet_%s.c" % name)
+    with open(cfile, "w") as f:
+        f.write(code)
+    if srcdir:
+        # public headers of the analysed copy first (../dispatch next to src/)
+        root = os.path.dirname(os.path.normpath(srcdir))
+        if os.path.isdir(os.path.join(root, "dispatch")):
+            flags = ["-I" + root] + flags
+    return _compile_unit("snippet_" + name, cfile, flags, cwd, mode)
